@@ -76,7 +76,7 @@ def _slice_item(repo, cfg):
     return it
 
 
-def build_item(repo, key, cfg, mutate=None):
+def build_item(repo, key, cfg, mutate=None, local_rules=None):
     if cfg['src'].get('kind') == 'slice':
         it = _slice_item(repo, cfg)
         if mutate:
@@ -103,7 +103,7 @@ def build_item(repo, key, cfg, mutate=None):
             if dr not in named: rules.append((dr, {'optional': True}))
     if cfg.get('pub', True) and it.kind in ('fn', 'const') and not it.text.lstrip().startswith('pub '):
         rules = rules + ['vis-pub']
-    R.apply_rules(it, rules)
+    R.apply_rules(it, rules, local_rules)
     if it.kind != 'fn':
         if cfg.get('attrs'):
             it.text = cfg['attrs'] + '\n' + it.text
@@ -173,11 +173,12 @@ def assemble(unit, repo=None, mutate=None):
     else:
         with open(os.path.join(unit['dir'], unit.get('template', 'template.rs')), encoding='utf-8') as f:
             tmpl = f.read()
+    local_rules = {}
     for name, pat, repl, doc, *fl in unit.get('extra_rules', []):
-        R.named_regex(name, pat, repl, doc, fl[0] if fl else 0)
+        local_rules[name] = R.make_regex_rule(pat, repl, doc, fl[0] if fl else 0)
     items = {}
     for key, cfg in unit['items'].items():
-        it = build_item(repo, key, cfg, mutate if (mutate and mutate[0] == key) else None)
+        it = build_item(repo, key, cfg, mutate if (mutate and mutate[0] == key) else None, local_rules)
         items[key] = it
     out_lines = []
     ranges = {}    # key -> (first_line, last_line) 1-based in assembled text
@@ -220,6 +221,7 @@ def assemble(unit, repo=None, mutate=None):
     a = Assembled()
     a.text = '\n'.join(out_lines)
     a.items, a.ranges, a.vac_ranges = items, ranges, vac_ranges
+    a.rule_docs = {n: (f.__doc__ or '') for n, f in local_rules.items()}
     a.lines = out_lines
     return a
 
